@@ -875,9 +875,30 @@ func (t *Tree) Compile(file string, args []string, out io.Writer) (err error) {
 			}
 			return consumes, s
 		}
-		for element := range t.Iterator() {
-			if element.GetType() == TypeRule {
-				optimizeAlternates(element)
+		// The first pass only computes, for every rule, whether it must consume
+		// and its set of first characters. A rule that is consulted while it is
+		// still being analysed answers with what is known so far, so the pass is
+		// repeated until nothing changes any more (the sets of mutually dependent
+		// rules are complete only then).
+		for range len(cache) + 1 {
+			previous := slices.Clone(cache)
+			for i := range cache {
+				cache[i].reached = false
+			}
+			for element := range t.Iterator() {
+				if element.GetType() == TypeRule {
+					optimizeAlternates(element)
+					break
+				}
+			}
+			stable := true
+			for i := range cache {
+				if cache[i].consumes != previous[i].consumes || !cache[i].s.Equal(previous[i].s) {
+					stable = false
+					break
+				}
+			}
+			if stable {
 				break
 			}
 		}
